@@ -117,19 +117,33 @@ def cellDecBase (cfg : Cfg) (faces : List (List Nat)) (hfs : List Nat) : Dec :=
 
 def faceValence (faces : List (List Nat)) (hf : Nat) : Nat := (faces.getD (hf / 2) []).length
 
-/-- `MeshT::add_cell(hfs, chk)` on a mesh whose faces are `faces` -/
-def cellDec (cfg : Cfg) (faces : List (List Nat)) (hfs : List Nat) : Dec :=
+/-- insertion into a duplicate-free ascending list (`std::set<VertexHandle>::insert`) -/
+def setInsert (x : Nat) : List Nat → List Nat
+  | [] => [x]
+  | y :: ys => if x < y then x :: y :: ys else if x = y then y :: ys else y :: setInsert x ys
+
+/-- number of distinct vertices met by the halfedges of the given halffaces: the `std::set<VertexHandle>` guard of the
+    tetrahedral / hexahedral `add_cell` overrides (64c6d58 / 7b999c9) -/
+def spanCount (edges : List (Nat × Nat)) (faces : List (List Nat)) (hfs : List Nat) : Nat :=
+  (((hfs.flatMap (hfHalfedges faces)).flatMap (fun h => [heFrom edges h, heTo edges h])).foldl (fun s x => setInsert x s) []).length
+
+/-- `MeshT::add_cell(hfs, chk)` on a mesh whose edges are `edges` and whose faces are `faces` -/
+def cellDec (cfg : Cfg) (edges : List (Nat × Nat)) (faces : List (List Nat)) (hfs : List Nat) : Dec :=
   match cfg.kind with
   | .poly => cellDecBase cfg faces hfs
   | .tet =>
     if hfs.length != 4 then .reject
     else if hfs.any (fun h => faces.length ≤ h / 2) then .fault
     else if hfs.any (fun h => faceValence faces h != 3) then .reject
+    else if (hfs.flatMap (hfHalfedges faces)).any (fun h => edges.length ≤ h / 2) then .fault
+    else if spanCount edges faces hfs != 4 then .reject
     else cellDecBase cfg faces hfs
   | .hex =>
     if hfs.length != 6 then .reject
     else if hfs.any (fun h => faces.length ≤ h / 2) then .fault
     else if hfs.any (fun h => faceValence faces h != 4) then .reject
+    else if (hfs.flatMap (hfHalfedges faces)).any (fun h => edges.length ≤ h / 2) then .fault
+    else if spanCount edges faces hfs != 8 then .reject
     else if !cfg.chk then cellDecBase cfg faces hfs
     else match cfg.hexOrder faces hfs with
       | none => .reject
@@ -253,7 +267,7 @@ def faceStep (cfg : Cfg) (edges : List (Nat × Nat)) (nHE : Nat) (i : Nat) (st :
       | .fault => { st with fault := true, err := some (.addFace i) }
 
 /-- cc:291-327; `faces` = the finished face list -/
-def cellStep (cfg : Cfg) (faces : List (List Nat)) (nHF : Nat) (i : Nat) (st : RS) : RS :=
+def cellStep (cfg : Cfg) (edges : List (Nat × Nat)) (faces : List (List Nat)) (nHF : Nat) (i : Nat) (st : RS) : RS :=
   let st := st.nextLine
   let r := extractInt .u64 (IStream.ofStr st.line)
   let val := natOf r.1
@@ -261,7 +275,7 @@ def cellStep (cfg : Cfg) (faces : List (List Nat)) (nHF : Nat) (i : Nat) (st : R
   else match readIdx nHF val r.2 [] with
     | none => st.fail (.badHalfface i)
     | some hfs =>
-      match cellDec cfg faces hfs with
+      match cellDec cfg edges faces hfs with
       | .accept l => { st with cells := l :: st.cells }
       | .reject => st.fail (.addCell i)
       | .fault => { st with fault := true, err := some (.addCell i) }
@@ -537,7 +551,7 @@ def sectCells (cfg : Cfg) (st : RS) : RS :=
   let c := countLine cfg.lim st
   if c.1.err.isSome then c.1 else
   let st0 : RS := c.1
-  let st := loopN (cellStep cfg st0.faces (2 * st0.dF)) c.2 0 st0
+  let st := loopN (cellStep cfg st0.edges st0.faces (2 * st0.dF)) c.2 0 st0
   { st with cells := st.cells.reverse }
 
 /-- the whole of `readStream` as a state transformer -/
